@@ -77,10 +77,11 @@ class HInst:
 class HGen:
     kind = "gen"
 
-    def __init__(self, qualname, tree, origin):
+    def __init__(self, qualname, tree, origin, args=()):
         self.qualname = qualname
         self.tree = tree
         self.origin = origin
+        self.args = tuple(args)
 
 
 class State:
@@ -149,6 +150,7 @@ class Interp:
         self.call_log: list[tuple] = []             # (caller qualname, callee qualname, line)
         self.unresolved: list[tuple] = []           # (qualname, line, text)
         self.intrinsics = {}
+        self.builtin_hooks = {}
 
     # -- heap ---------------------------------------------------------------------------
     def alloc(self, obj) -> tuple:
@@ -428,10 +430,22 @@ class Interp:
                             r = (a is b) if p[1] == "Is" else (a is not b)
                             return const(r)
                     else:
-                        r = {"Lt": a < b, "Gt": a > b, "LtE": a <= b, "GtE": a >= b, "Eq": a == b, "NotEq": a != b}[p[1]]
+                        import operator as _op
+                        r = {"Lt": _op.lt, "Gt": _op.gt, "LtE": _op.le, "GtE": _op.ge, "Eq": _op.eq, "NotEq": _op.ne}[p[1]](a, b)
                         return const(bool(r))
                 except TypeError:
                     pass
+            if p[1] in ("In", "NotIn") and is_const(p[2]):
+                o = self.obj(p[3])
+                if isinstance(o, HList) and all(sg[0] == "e" and is_const(sg[1]) for sg in o.segs):
+                    r = p[2][1] in [sg[1][1] for sg in o.segs]
+                    return const(r if p[1] == "In" else not r)
+                if p[3][0] == "tuple" and all(is_const(x) for x in p[3][1]):
+                    r = p[2][1] in [x[1] for x in p[3][1]]
+                    return const(r if p[1] == "In" else not r)
+                if is_const(p[3]) and isinstance(p[3][1], str) and isinstance(p[2][1], str):
+                    r = p[2][1] in p[3][1]
+                    return const(r if p[1] == "In" else not r)
             if p[1] == "IsNot":
                 return mk_not(("cmp", "Is", p[2], p[3]))
             if p[1] == "NotIn":
@@ -676,6 +690,7 @@ class Interp:
                 return self.new_list([("s", recv)], n) if not isinstance(o, HDict) else self.new_dict([("**", recv)], n, tree)
             if name == "format":
                 return ("call", ".format", (recv,) + tuple(args), tuple(sorted(kwargs.items())))
+            tree.append(("mcall", name, recv, tuple(args), line))
             return ("call", "." + name, (recv,) + tuple(args), tuple(sorted(kwargs.items())))
         if k == "super" or k == "opaque":
             return ("opaque", ast.unparse(n))
@@ -685,6 +700,8 @@ class Interp:
 
     def call_builtin(self, st, name, args, kwargs, n, tree):
         line = getattr(n, "lineno", None)
+        if name in self.builtin_hooks:
+            return self.builtin_hooks[name](self, st, args, kwargs, n, tree)
         if name in ("list", "tuple") and len(args) <= 1 and name == "list":
             return self.new_list([("s", args[0])] if args else [], n, tree)
         if name == "tuple" and len(args) == 1:
@@ -789,7 +806,7 @@ class Interp:
         if exits is not None:
             st.ext = exits.ext
         if self.is_generator(fi):
-            return self.alloc(HGen(q, sub, self.origin(n)))
+            return self.alloc(HGen(q, sub, self.origin(n), [callee.env.get(p.arg) for p in params]))
         tree.append(("call", q, sub, line, act.id))
         if isinstance(rv, tuple) and rv[0] not in ("const", "ref") and fi.node.returns is not None:
             c = self.facts.annotation_class(fi.module, fi.node.returns)
@@ -1198,7 +1215,9 @@ class Interp:
         for i, p in enumerate(a.posonlyargs + a.args + a.kwonlyargs):
             t = ("param", p.arg)
             st.env[p.arg] = t
-            if i == 0 and fi.cls is not None and not fi.is_static:
+            if i == 0 and fi.cls is not None and fi.is_classmethod:
+                st.env[p.arg] = ("class", fi.cls.qualname)
+            elif i == 0 and fi.cls is not None and not fi.is_static:
                 self.types[t] = fi.cls
             else:
                 c = self.facts.annotation_class(fi.module, p.annotation)
